@@ -329,6 +329,7 @@ def c04_rf18(run):
     rf_inline.rf83(run)
     rf_inline.rf90(run)
     rf_inline.rf91(run)
+    rf_inline.rf98(run)
     rf_flow.rf71(run, units=('mir',))
     run.min_instances('RF71', 3)
     rf_fold.rf48(run)
